@@ -615,6 +615,80 @@ theorem term_total_no_sparkline (e : Event) (x : Enc String) (h : termOutput e =
     · rename_i bs _ hsv
       exact absurd hsv (hm mv hmv _)
 
+/-! ## Re-entrancy: a value whose formatting code emits through the same emitter
+
+`emitRe enc outer inner k` is `Otlp::emit outer` during which the encoder formats, `k` times in all, values of
+`outer` whose `Display` code emits `inner` through the same emitter on the same thread (Model/OtlpRecords.lean).
+`enc` is any signal's encoder in any encoding (`logRecord`, `spanRecord`, `metricRecord` — protobuf and JSON
+build the same structured record). -/
+
+theorem emitNested_declined {ρ : Type} (enc : Event → Option (Enc ρ)) (inner : Event) (h : enc inner = none)
+    (k : Nat) (q : List ρ) : emitNested enc inner k q = .ok q := by
+  induction k with
+  | zero => rfl
+  | succ k ih => simp [emitNested, emitOne, h, Enc.bind, ih]
+
+theorem emitNested_ok {ρ : Type} (enc : Event → Option (Enc ρ)) (inner : Event) (s : ρ)
+    (h : enc inner = some (.ok s)) (k : Nat) (q : List ρ) :
+    emitNested enc inner k q = .ok (q ++ List.replicate k s) := by
+  induction k generalizing q with
+  | zero => simp [emitNested]
+  | succ k ih => simp [emitNested, emitOne, h, Enc.bind, ih, List.replicate_succ]
+
+theorem emitNested_panic {ρ : Type} (enc : Event → Option (Enc ρ)) (inner : Event)
+    (h : enc inner = some .panic) (k : Nat) (q : List ρ) : emitNested enc inner (k + 1) q = .panic := by
+  simp [emitNested, emitOne, h, Enc.bind]
+
+/-- **The nested emit is just another emit.** A re-entrant emit leaves the pipeline exactly as the plain emits
+    `inner` (k times), then `outer`, one after the other, would: same records, same order, same panics. -/
+theorem reentrant_emit_is_sequential {ρ : Type} (enc : Event → Option (Enc ρ)) (outer inner : Event)
+    (k : Nat) (q : List ρ) :
+    emitRe enc outer inner k q = emitAll enc (List.replicate k inner ++ [outer]) q := by
+  unfold emitRe
+  induction k generalizing q with
+  | zero => cases h : emitOne enc outer q <;> simp [emitNested, emitAll, Enc.bind, h]
+  | succ k ih =>
+    simp only [emitNested, List.replicate_succ, List.cons_append, emitAll]
+    cases h : emitOne enc inner q with
+    | panic => simp [Enc.bind]
+    | ok q' => simpa [Enc.bind] using ih q'
+
+/-- **Both events are accepted.** When the encoder accepts `outer` (record `r`) and `inner` (record `s`) on
+    their own, the re-entrant emit does not panic and queues every nested record and the outer record — the very
+    `r` a plain emit of `outer` queues; nothing queued before is touched. -/
+theorem reentrant_emit_accepts_both {ρ : Type} (enc : Event → Option (Enc ρ)) (outer inner : Event) (r s : ρ)
+    (ho : enc outer = some (.ok r)) (hi : enc inner = some (.ok s)) (k : Nat) (q : List ρ) :
+    emitRe enc outer inner k q = .ok (q ++ List.replicate k s ++ [r]) ∧
+    emitOne enc outer q = .ok (q ++ [r]) := by
+  simp [emitRe, emitNested_ok enc inner s hi, emitOne, ho, Enc.bind]
+
+/-- **Re-entrancy adds no panic.** The emitting thread panics iff the encoder panics on `outer` alone, or a
+    nested emit happens and the encoder panics on `inner` alone. -/
+theorem reentrant_emit_panics_iff {ρ : Type} (enc : Event → Option (Enc ρ)) (outer inner : Event)
+    (k : Nat) (q : List ρ) :
+    emitRe enc outer inner k q = .panic ↔ ((0 < k ∧ enc inner = some .panic) ∨ enc outer = some .panic) := by
+  have outerOnly : ∀ q' : List ρ, emitOne enc outer q' = .panic ↔ enc outer = some .panic := by
+    intro q'
+    unfold emitOne
+    cases h : enc outer with
+    | none => simp
+    | some x => cases x <;> simp
+  unfold emitRe
+  cases hi : enc inner with
+  | none => simp [emitNested_declined enc inner hi, Enc.bind, outerOnly]
+  | some x =>
+    cases x with
+    | ok s => simp [emitNested_ok enc inner s hi, Enc.bind, outerOnly]
+    | panic =>
+      cases k with
+      | zero => simp [emitNested, Enc.bind, outerOnly]
+      | succ k => simp [emitNested_panic enc inner hi, Enc.bind]
+
+/-- A declined nested event (e.g. a plain event on a traces-only emitter) changes nothing. -/
+theorem reentrant_emit_inner_declined {ρ : Type} (enc : Event → Option (Enc ρ)) (outer inner : Event)
+    (hi : enc inner = none) (k : Nat) (q : List ρ) : emitRe enc outer inner k q = emitOne enc outer q := by
+  simp [emitRe, emitNested_declined enc inner hi, Enc.bind]
+
 /-! ## non-vacuity of the hypotheses -/
 
 def sampleEvent : Event :=
@@ -635,5 +709,20 @@ example : PropsKeysOk sampleEvent.props := by
 example : (fileLine sampleEvent).isSome = true := by decide
 example : ∃ r, logRecord sampleEvent = .ok r ∧ r.severityNumber = 13 ∧ r.attributes.length = 5 := by
   refine ⟨_, rfl, ?_, ?_⟩ <;> decide
+
+/-- the demo of seeded change C13-r3m1: a log event with a `Display` value (`v`) that logs when formatted; the
+    formatter runs twice (message hole and attribute): two nested records, then the outer one -/
+def reOuter : Event :=
+  ⟨"outer", [.text "hello ", .hole "v"], .none, false,
+    [("a", .simple (.int 1)), ("v", .simple (.disp "some text")), ("z", .simple (.bool true))]⟩
+def reInner : Event := ⟨"inner", [.text "formatting a value"], .none, false, [("depth", .simple (.int 1))]⟩
+
+example : ∃ r s, (fun e => some (logRecord e)) reOuter = some (.ok r) ∧
+    (fun e => some (logRecord e)) reInner = some (.ok s) ∧ r.body = "hello some text" ∧ s.scope = "inner" :=
+  ⟨_, _, rfl, rfl, by decide, by decide⟩
+example : (match emitRe (fun e => some (logRecord e)) reOuter reInner 2 [] with
+    | .ok q => q.map (·.scope)
+    | .panic => []) = ["inner", "inner", "outer"] := by decide
+example : formatsAttributes .logs reOuter = true ∧ formatsAttributes .traces reOuter = false := by decide
 
 end EmitModel.C13
